@@ -65,7 +65,7 @@ def build_world(seed, n, sampler, monitors, r, p_fault=0.5, max_cycles=3, stalls
         "monitors": list(monitors),
         "plan": plan,
         "downtimes": downtimes,
-        "max_incarnations": len([f for f in plan if f["kind"].startswith("kill") or f["kind"] == "signal"]) + 2,
+        "max_incarnations": len([f for f in plan if f["kind"].startswith("kill") or f["kind"].startswith("signal")]) + 2,
         "budget_steps": BUDGET_STEPS,
     }
     if extra:
@@ -199,7 +199,7 @@ def _drop_fault(world, i):
 
     w = copy.deepcopy(world)
     f = w["plan"].pop(i)
-    if f["kind"].startswith("kill") or f["kind"] == "signal":
+    if f["kind"].startswith("kill") or f["kind"].startswith("signal"):
         for g in w["plan"]:
             if g.get("inc", 0) > f.get("inc", 0):
                 g["inc"] -= 1
